@@ -106,10 +106,11 @@ type node struct {
 }
 
 type c19gen struct {
-	c      *Chooser
-	nodes  []*node
-	fakes  []*fakeRes
-	extras []*fakeRes // resources that must never be closed by the composition
+	c       *Chooser
+	nodes   []*node
+	fakes   []*fakeRes
+	extras  []*fakeRes // resources that must never be closed by the composition
+	tracked int        // leaves that have a Closed() method of their own
 	// connections a StreamWrappedConnection borrows from an owner outside the composition, who may close
 	// them at any time (the composition itself must not)
 	borrowed []*c19borrowed
@@ -121,6 +122,13 @@ type c19borrowed struct {
 	desc        string
 	ownerClosed bool
 }
+
+// fakeTracked is a resource that keeps track of its own closed state, as a multiplexer stream or the project's
+// own reader+writer pair does: it has a Closed() method. A wrapper that finds one must still close it exactly
+// once and answer Closed() from its own state.
+type fakeTracked struct{ *fakeRes }
+
+func (f fakeTracked) Closed() bool { return f.fakeRes.closes > 0 }
 
 func (g *c19gen) newFake() *fakeRes {
 	f := &fakeRes{name: fmt.Sprintf("f%d", len(g.fakes)+len(g.extras))}
@@ -157,6 +165,10 @@ func (g *c19gen) build(kind string, depth int) *node {
 	c := g.c
 	if depth <= 0 || c.Chance(1, 6, "leaf") {
 		f := g.newFake()
+		if c.Chance(1, 5, "resource-tracks-its-closed-state") {
+			g.tracked++
+			return g.add(&node{kind: kind, ctor: "fake", val: fakeTracked{f}, leaves: []*fakeRes{f}})
+		}
 		return g.add(&node{kind: kind, ctor: "fake", val: f, leaves: []*fakeRes{f}})
 	}
 	switch kind {
